@@ -10,7 +10,7 @@ use crate::sem::{self, SemCase};
 use serde_json::{json, Value};
 use std::sync::OnceLock;
 
-pub const DECOS: [(&str, &str); 20] = [
+pub const DECOS: [(&str, &str); 23] = [
     ("space", " "),
     ("tab", "\t"),
     ("newline", "\n"),
@@ -31,6 +31,9 @@ pub const DECOS: [(&str, &str); 20] = [
     ("two-blocks", "/* a *//* b */"),
     ("two-blocks-url", "/* set *//* see http://x */"),
     ("block-then-line-comment", "/* a */// b\n"),
+    ("line-comment-star", "//*** banner ***\n"),
+    ("line-comment-star-slash", "//*/ x\n"),
+    ("line-comment-slashes", "//// x // y\n"),
 ];
 
 #[derive(Clone, Debug)]
@@ -39,6 +42,8 @@ pub enum Variant {
     TwoGaps(usize, usize, usize, usize),
     /// the single blank between two tokens replaced by a block comment (k-th such blank, decoration)
     ReplaceSep(usize, usize),
+    /// the single blank between a word and a bracket / separator (or two of those) removed: `do {` -> `do{`
+    RemoveSep(usize),
     AllCrLf,
     NoFinalNewline,
     Options(Vec<&'static str>),
@@ -60,7 +65,18 @@ pub fn base_programs() -> Vec<String> {
     for (c, _, _) in gen2::f3(Tier::Quick, false).into_iter().step_by(5) {
         v.push(c.source());
     }
+    // every statement keyword followed by a blank and a bracket (appended last: the indices above are part of the case keys)
+    v.push("char a, b;\nvoid main()\n{\n  do {\n    a++;\n  } while (a < 3);\n  if (a) { b = 1; } else { b = 2; }\n  for (X = 0; X < 2; X++) { b++; }\n  while (b) { b--; }\n  switch (a) { case 1: b = 3; break; default: b = 4; }\n  do a--; while (a);\n}\n".to_string());
     v
+}
+
+/// may the blank t[i] be removed without merging its neighbours into another token?
+fn removable(t: &[String], i: usize) -> bool {
+    let l = t[i - 1].chars().last().unwrap_or(' ');
+    let r = t[i + 1].chars().next().unwrap_or(' ');
+    let word = |c: char| c.is_ascii_alphanumeric() || c == '_';
+    let sep = |c: char| "(){}[];,".contains(c);
+    (word(l) && sep(r)) || (sep(l) && word(r)) || (sep(l) && sep(r))
 }
 
 /// positions (token indices) where a decoration may be inserted: after a non-blank token that is
@@ -141,7 +157,7 @@ pub fn cases(tier: Tier) -> Vec<DCase> {
     let mut v = Vec::new();
     for (pi, p) in progs.iter().enumerate() {
         let (_t, g) = gaps(p);
-        if tier == Tier::Quick && pi % 2 == 1 && pi >= CORPUS.len() {
+        if tier == Tier::Quick && pi % 2 == 1 && pi >= CORPUS.len() && pi + 1 != progs.len() {
             continue;
         }
         for gi in 0..g.len() {
@@ -160,6 +176,9 @@ pub fn cases(tier: Tier) -> Vec<DCase> {
                         continue;
                     }
                     v.push(DCase { prog: pi, variant: Variant::ReplaceSep(k, d) });
+                }
+                if removable(&_t2, blanks[k]) {
+                    v.push(DCase { prog: pi, variant: Variant::RemoveSep(k) });
                 }
             }
         }
@@ -217,6 +236,12 @@ pub fn run(progs: &[String], c: &DCase) -> CaseOutcome {
             let mut t3 = t2.clone();
             t3[blanks[*k]] = DECOS[*d].1.to_string();
             (t3.concat(), format!("blank {} ({:?} | {:?}) replaced by {}", k, t2[blanks[*k] - 1], t2[blanks[*k] + 1], DECOS[*d].0), vec![])
+        }
+        Variant::RemoveSep(k) => {
+            let (t2, blanks) = single_blanks(base);
+            let mut t3 = t2.clone();
+            t3[blanks[*k]] = String::new();
+            (t3.concat(), format!("blank {} ({:?} | {:?}) removed", k, t2[blanks[*k] - 1], t2[blanks[*k] + 1]), vec![])
         }
         Variant::AllCrLf => (base.replace('\n', "\r\n"), "all line ends CR-LF".into(), vec![]),
         Variant::NoFinalNewline => (base.trim_end_matches('\n').to_string(), "no final newline".into(), vec![]),
